@@ -373,6 +373,39 @@ func olderVersion(src string) string {
 	return strings.Join(out, "\n")
 }
 
+var basicFieldRe = regexp.MustCompile(`^\t[A-Za-z_][A-Za-z0-9_, ]* (bool|string|int|int8|int16|int32|int64|uint|uint8|uint16|uint32|uint64|float32|float64|complex64|complex128|byte|rune)$`)
+
+// olderVersionSameHelpers drops the fields of basic type from every multi-line struct
+// (the first field stays): the output for this version declares the same functions with
+// the same signatures as the current one - only bodies differ.
+func olderVersionSameHelpers(src string) string {
+	var out []string
+	in, first := false, false
+	for _, l := range strings.Split(src, "\n") {
+		switch {
+		case !in && structOpenRe.MatchString(l):
+			in, first = true, true
+			out = append(out, l)
+		case in && l == "}":
+			in = false
+			out = append(out, l)
+		case in:
+			t := strings.TrimSpace(l)
+			if t == "" || strings.HasPrefix(t, "//") {
+				out = append(out, l)
+			} else if first {
+				first = false
+				out = append(out, l)
+			} else if !basicFieldRe.MatchString(l) {
+				out = append(out, l)
+			}
+		default:
+			out = append(out, l)
+		}
+	}
+	return strings.Join(out, "\n")
+}
+
 type e1Result struct {
 	HistSame, HistDiffer int
 	Records              []map[string]interface{} // decoded harness records
@@ -391,21 +424,33 @@ type stage2Hook func(dir string, cases []*e1Case, env []string, recs []map[strin
 func runBatchPipeline(b *e1Batch, prop string, env []string, runs int, hooks ...stage2Hook) *e1Result {
 	res := &e1Result{}
 	hist := false
+	histMode := 1
 	var scratchBytes string
 	var rec func(cases []*e1Case, name string)
 	rec = func(cases []*e1Case, name string) {
 		dir := filepath.Join(scratchDir, "e1", name)
 		files := scenarioFiles(cases, "")
 		if hist {
+			// without the external test package: goderive handles it as a package of its own that
+			// has no derive calls and deletes the old derived.gen.go before package p is printed,
+			// which would hide what the old file on disk does to the new one
+			delete(files, "p/ext_test.go")
 			// regeneration: derived.gen.go first holds the output for an older version of
 			// the sources (every multi-line struct cut down to its first field)
 			old := map[string]string{}
 			for k, v := range files {
 				old[k] = v
 			}
-			old["p/types.go"] = olderVersion(files["p/types.go"])
+			if histMode == 2 {
+				old["p/types.go"] = olderVersionSameHelpers(files["p/types.go"])
+			} else {
+				old["p/types.go"] = olderVersion(files["p/types.go"])
+			}
 			writeScenario(dir, old)
-			run(dir, 90*time.Second, nil, buildGoderive(), "./p")
+			og := run(dir, 90*time.Second, nil, buildGoderive(), "./p")
+			if os.Getenv("VERIF_DEBUG") != "" {
+				fmt.Fprintf(os.Stderr, "DEBUG older version (mode %d) of %s: goderive exit %d, %d bytes: %s\n", histMode, name, og.Exit, len(readFileOr(filepath.Join(dir, "p/derived.gen.go"), "")), head(firstErrorLine(og.Stderr), 200))
+			}
 			res.GenRuns++
 			writeFile(filepath.Join(dir, "p/types.go"), files["p/types.go"])
 		} else {
@@ -449,6 +494,9 @@ func runBatchPipeline(b *e1Batch, prop string, env []string, runs int, hooks ...
 		}
 		if name == b.Name {
 			cur := readFileOr(filepath.Join(dir, "p/derived.gen.go"), "")
+			if os.Getenv("VERIF_DEBUG") != "" && hist {
+				fmt.Fprintf(os.Stderr, "DEBUG regenerated %s mode %d: %d bytes, scratch %d bytes, same=%v\n", name, histMode, len(cur), len(scratchBytes), cur == scratchBytes)
+			}
 			if !hist {
 				scratchBytes = cur
 			} else if cur == scratchBytes {
@@ -540,6 +588,11 @@ func runBatchPipeline(b *e1Batch, prop string, env []string, runs int, hooks ...
 	if histProps[prop] && len(res.Failures) == 0 && len(b.Cases) > 0 {
 		hist = true
 		rec(b.Cases, b.Name)
+		// a second older version: the same functions with the same signatures, other bodies
+		if len(res.Failures) == 0 {
+			histMode = 2
+			rec(b.Cases, b.Name)
+		}
 	}
 	return res
 }
